@@ -286,6 +286,11 @@ static void run_enc(uint64_t idx, Ctx& c) {
             else if (table && can && !repr && cp >= 0x10000) {
                 if (t->canTranscodeTo(cp & 0xFFFF)) known_or_violation(c, "table-cantranscodeto-truncates", "\"encoding\":" + jstr(E.xname) + ",\"cp\":" + std::to_string(cp));
                 else viol("cantranscodeto", cp, "canTranscodeTo=true but the reference has no mapping");
+            } else if (!E.intrinsic && cp >= 0x10000 && can && !repr && [&] { ToRes r = x_to(t, u.data(), u.size(), 16); if (r.threw) fresh(); return !r.threw && r.out.empty() && r.eaten == u.size(); }()) {
+                // supplementary default-ignorable code point (U+1BCA0, U+1D173, U+E0000...): same listed defect as in the BMP, visible since canTranscodeTo
+                // builds the right surrogate pair
+                known_or_violation(c, "icu-default-ignorable-dropped", "\"encoding\":" + jstr(E.xname) + ",\"cp\":" + std::to_string(cp));
+                continue;
             } else if (!E.intrinsic && cp >= 0x10000) {
                 // the wrapper forms the pair as (cp>>10)+0xD800, (cp&0x3FF)+0xDC00 without subtracting 0x10000; tolerated as the known
                 // defect only when the answer is exactly what an independent converter says about THAT unit pair
